@@ -697,7 +697,8 @@ impl Engine for Text {
                         "to_be_bytes" => Exp::Is(Out::Y(be.clone())),
                         "to_ne_bytes" => Exp::Is(Out::Y(ne.clone())),
                         "encoded_size" | "max_encoded_len" => Exp::Is(Out::V(n as u128)),
-                        "decode(encode)" | "serde_back" | "serde_wrapping_back" | "serde_from_bits_json" | "decode_stream(encode)" | "decode_record" | "decode_vec" => Exp::Is(Out::O(Some(a))),
+                        "decode(encode)" | "serde_back" | "serde_wrapping_back" | "serde_from_bits_json" | "decode_stream(encode)" | "decode_record" | "decode_vec" | "decode_all(encode)" => Exp::Is(Out::O(Some(a))),
+                        "decode_limits_like_integer" => Exp::Is(Out::V(0)),
                         "encode_record" => {
                             let mut v = vec![7u8];
                             v.extend_from_slice(&le);
